@@ -151,7 +151,8 @@ func (dw *DiskWriter) HandleChange(kind ChangeKind, p string, fi os.FileInfo, er
 		if err := rewriteMetadata(destPath, statCopy); err != nil {
 			return errors.Wrapf(err, "error setting dir metadata for %s", destPath)
 		}
-		return nil
+		// the directory stays in place but its metadata changed: report it
+		return dw.processChange(dw.ctx, kind, p, fi, nil)
 	}
 
 	newPath := destPath
